@@ -31,5 +31,9 @@ C11_ConcurrentShutdown == Fact("C11") => Facts[l].a = 0
 C16_ConcurrentReload == Fact("C16") => Facts[l].a = Facts[l].b
 \* a completed job of the pipeline that goes on after a failure, one of whose tasks failed, is not reported as succeeded (a = 1)
 C08_ConcurrentVerdict == Fact("C08") => Facts[l].a = 0
+\* the jobs of the delayed one-slot pipeline start in the order of their accepting critical sections (a = pairs that did not),
+\* and none starts before its delay has passed (a = how many did)
+C06_ConcurrentFifo == Fact("C06") => Facts[l].a = 0
+C07_ConcurrentDelay == Fact("C07") => Facts[l].a = 0
 Alias == [kind |-> kind, line |-> l]
 =============================================================================
